@@ -161,6 +161,8 @@ AGG = {
     "min": (lambda S, p: a.min(S[0], key=(lambda x: x.key) if p["flag"] else None), lambda p: 0),
     "max": (lambda S, p: a.max(S[0], key=(lambda x: -x.key) if p["flag"] else None), lambda p: 0),
     "reduce": (lambda S, p: a.reduce(alast if p["flag"] else last, S[0]), lambda p: 0),
+    # a C-level reduction (no Python frame of the harness between the items)
+    "reduce-builtin": (lambda S, p: a.reduce(max if p["flag"] else min, S[0]), lambda p: 0),
     "nlargest": (lambda S, p: a.nlargest(S[0], p["k"], key=(lambda x: x.key % 7) if p["flag"] else None), lambda p: p["k"]),
     "nsmallest": (lambda S, p: a.nsmallest(S[0], p["k"], key=(lambda x: x.key % 7) if p["flag"] else None), lambda p: p["k"]),
 }
